@@ -60,7 +60,7 @@ WRITER_READER = {
     "SCCWriter": "SCCReader",
 }
 # text tokens for writer outputs (none is another format's marker)
-TEXT_TOKENS = ["Hello", "a b", "123", "1", "&", "<", "-->", "x > y", "{", "{1}", "{1}{2}", "it's", '"q"', "é", "00:00:01,000", "-"]
+TEXT_TOKENS = ["Hello", "a b", "123", "1", "&", "<", "-->", "x > y", "{", "{1}", "{1}{2}", "it's", '"q"', "é", "00:00:01,000", "-", "Pneumonoultramicroscopicsilicovolcanoconiosis", "see http://example.org/a/very/long/path/without/any/blank now"]
 
 
 def _cls(name):
@@ -134,10 +134,23 @@ def build_set(spec):
     return _build_set(spec)
 
 
-def eval_writer_case(spec, wname):
+def eval_writer_case(spec, wname, pre=None):
+    """pre: what happened to the captions before they are written - None | "printed" (repr / format_start / format_end
+    were called on them) | "comma" (formatted with the SRT separator)"""
     out = []
     w = _cls(wname)()
-    doc = w.write(build_set(spec))
+    cs_in = build_set(spec)
+    if pre:
+        for l in cs_in.get_languages():
+            for c in cs_in.get_captions(l):
+                if pre == "printed":
+                    repr(c)
+                    c.format_start()
+                    c.format_end()
+                else:
+                    c.format_start(msec_separator=",")
+                    c.format_end(msec_separator=",")
+    doc = w.write(cs_in)
     rname = WRITER_READER[wname]
     try:
         import pycaption
@@ -147,15 +160,15 @@ def eval_writer_case(spec, wname):
     except Exception as e:  # noqa
         gname = "raises:" + type(e).__name__
     if gname != rname:
-        out.append((f"C20/own-output/{wname}-detected-as:{gname}", {"doc": doc[:300], "expected": rname}))
+        out.append((f"C20/own-output/{wname}-detected-as:{gname}" + (f"/captions-{pre}-before" if pre else ""), {"doc": doc[:300], "expected": rname}))
     else:
         try:
             cs = _cls(rname)().read(doc)
             n = sum(len(cs.get_captions(l)) for l in cs.get_languages())
             if n == 0:
-                out.append((f"C20/own-output/{wname}-reads-empty", {"doc": doc[:300]}))
+                out.append((f"C20/own-output/{wname}-reads-empty" + (f"/captions-{pre}-before" if pre else ""), {"doc": doc[:300]}))
         except Exception as e:  # noqa
-            out.append((f"C20/own-output/{wname}-reader-raises:{type(e).__name__}", {"doc": doc[:300], "err": str(e)[:200]}))
+            out.append((f"C20/own-output/{wname}-reader-raises:{type(e).__name__}" + (f"/captions-{pre}-before" if pre else ""), {"doc": doc[:300], "err": str(e)[:200]}))
     return out, gname
 
 
@@ -216,11 +229,14 @@ def run_shard(d):
                 acc.violation(f"C20/valid-doc/{fmt}-detected-as:{got.__name__ if got else None}", {"k": "string", "s": doc}, None)
             acc.count("prefix_docs")
     else:
-        for spec in writer_specs(d["tier"]):
-            v, got = eval_writer_case(spec, d["w"])
-            acc.case(("w", d["w"], spec), True, got, {"writer": d["w"], "captions": spec})
-            for sig, det in v:
-                acc.violation(sig, {"k": "writer", "w": d["w"], "spec": spec}, det)
+        for si, spec in enumerate(writer_specs(d["tier"])):
+            for pre in (None, "printed", "comma"):
+                if pre and si % 5 and d["tier"] == "quick":
+                    continue
+                v, got = eval_writer_case(spec, d["w"], pre)
+                acc.case(("w", d["w"], spec, pre), True, got, {"writer": d["w"], "captions": spec, "captions_formatted_before": pre})
+                for sig, det in v:
+                    acc.violation(sig, {"k": "writer", "w": d["w"], "spec": spec, "pre": pre}, det)
     return acc.result()
 
 
@@ -228,5 +244,5 @@ def replay(case):
     if case["k"] == "string":
         v, _ = eval_string(case["s"])
     else:
-        v, _ = eval_writer_case(case["spec"], case["w"])
+        v, _ = eval_writer_case(case["spec"], case["w"], case.get("pre"))
     return [{"sig": s, "detail": d} for s, d in v]
